@@ -10,9 +10,14 @@ import Rare.Proofs.C06Walk
 /-!
 # C06 — named inputs are each read once, decoded faithfully, and failures are reported
 
-The file system, `filepath.Glob`/`Walk` and `compress/gzip` are oracle parameters (`FsOracle`,
-`FileOracle`); the theorems are about the planning / accounting / decision logic rare builds on top
-of them, for ALL argument lists, oracle answers, failure placements, reader/worker counts and schedules.
+Part 1 (below): file contents, read faults and `compress/gzip` are oracle parameters (`FileOracle`), and
+so is the file system as far as the planning / accounting / decision theorems are concerned (`FsOracle`):
+they hold for ALL argument lists, oracle answers, failure placements, reader/worker counts and schedules.
+Part 2 (second half of the file) takes the file-system oracle away: an abstract directory tree, path
+resolution, `filepath.Match` / `Glob` / `Walk` / `Clean` / `Join` and `dirwalk.GlobExpand` are Lean
+functions mirroring go1.23 / rare, and `match_eq_spec`, `match_sound`, `match_bad_pattern`,
+`literal_matches_itself`, `star_no_slash`, `glob_sound_complete`, `glob_expansion_once`, `glob_literal`,
+`walk_each_regular_file_once`, `plan_mentions` say what they compute.
 
 * `plan_once_per_mention`, `plan_stdin` – what is opened, and how often.
 * `errors_counted`, `failed_input_exit_2` – read errors = number of failed inputs; any failure ⇒ exit 2.
@@ -577,6 +582,32 @@ theorem glob_literal (root : Node) (p : Bytes) (h : hasMeta p = false) :
   simp only [expandArg, Bool.false_and, Bool.false_eq_true, if_false, treeFs, globRes, hg]
   split <;> simp
 
+/-- … and therefore rare opens every path of a glob expansion exactly once for this mention (and the
+    literal pattern text, once, when nothing matches). -/
+theorem glob_expansion_once (root : Node) (hw : root.WF) (lits : List Name) (c1 : Bytes) (more : List Bytes)
+    (hl : ∀ x ∈ lits, NormalName x ∧ hasMeta x = false) (hc1 : hasMeta c1 = true)
+    (hcs : ∀ c ∈ c1 :: more, c ≠ [] ∧ slash ∉ c ∧ WellFormed c)
+    (hlen : (c1 :: more).length < pathSeparatorsLimit)
+    (hgreedy : (∀ c ∈ c1 :: more, ∀ ast, Parses c ast → FixedWidth ast) ∨
+      (∀ d names n, readDirNames root d = some names → n ∈ names → NoWide n)) :
+    (expandArg (treeFs root) false (intercalateSlash (lits ++ c1 :: more))).Nodup ∧
+    ∀ p, GlobRel (treeView root) (if lits = [] then dot else intercalateSlash lits) (c1 :: more).reverse p →
+      (expandArg (treeFs root) false (intercalateSlash (lits ++ c1 :: more))).count p = 1 := by
+  obtain ⟨l, hg, hmem, _, hnd, _⟩ := glob_sound_complete root hw lits c1 more hl hc1 hcs hlen hgreedy
+  have hexp : expandArg (treeFs root) false (intercalateSlash (lits ++ c1 :: more)) =
+      if l.length > 0 then l else [intercalateSlash (lits ++ c1 :: more)] := by
+    simp only [expandArg, Bool.false_and, Bool.false_eq_true, if_false, treeFs, globRes, hg]
+  rw [hexp]
+  constructor
+  · split
+    · exact hnd
+    · simp
+  · intro p hp
+    have hpl : p ∈ l := (hmem p).2 hp
+    have : l.length > 0 := List.length_pos_of_mem hpl
+    simp only [this, if_true]
+    rw [hnd.count]; simp [hpl]
+
 /-! ## The recursive walk -/
 
 /-- **With `-R` every regular file below a directory argument appears exactly once in the plan.**
@@ -729,6 +760,14 @@ example : (∀ x ∈ [nLogs], NormalName x ∧ hasMeta x = false) ∧ hasMeta pS
     intro it hit
     simp only [List.mem_cons, List.mem_nil_iff, or_false] at hit
     rcases hit with rfl | rfl | rfl | rfl | rfl <;> simp
+
+/-- `glob_expansion_once` on the same pattern: the three matches, once each; and a pattern without a match is
+    handed on literally -/
+example : expandArg (treeFs exTree) false (intercalateSlash ([nLogs] ++ [pStarLog])) =
+      [[108, 111, 103, 115, 47, 97, 46, 108, 111, 103], [108, 111, 103, 115, 47, 98, 46, 108, 111, 103],
+       [108, 111, 103, 115, 47, 195, 169, 240, 159, 152, 128, 46, 108, 111, 103]] ∧
+    expandArg (treeFs exTree) false [110, 111, 42] = [[110, 111, 42]] := by
+  constructor <;> decide +kernel
 
 /-- two levels, through the symbolic link `ld -> logs` as well: `*/*.log` -/
 example : glob exTree [42, 47, 42, 46, 108, 111, 103] = .ok
